@@ -15,11 +15,11 @@ META = {
                    "prefix schedule per configuration are replayed with REAL os.fork()ed processes on a real file, every file "
                    "operation being released by a coordinator in the order of the schedule.",
     "bounds": {"quick": {"children": "1..3", "reads per process": "<=2 (1 with three children)", "lines": 3,
-                         "parent reads before fork": "0 or 1", "classes": "RandomLineAccessFile, MemoryMappedRandomLineAccessFile, MapAccessFile"},
+                         "parent reads before fork": "0 or 1", "second child forked after another parent read while the first child runs": "one configuration", "classes": "RandomLineAccessFile, MemoryMappedRandomLineAccessFile, MapAccessFile"},
                "thorough": {"children": "1..3", "reads per process": "<=3 (2 children), <=2 with three children under a context bound",
                             "lines": 3, "parent reads before fork": "0 or 1"}},
-    "outside_bounds": ["more processes / reads / lines", "children forked at different times (all forks happen after open() and the "
-                       "optional first read of the parent, before the concurrent phase)", "slices and iterables as selectors, iteration "
+    "outside_bounds": ["more processes / reads / lines", "fork patterns other than: all children forked after open() (and an optional parent read), or the "
+                       "second child forked after one more parent read while the first child is already running", "slices and iterables as selectors, iteration "
                        "(they are loops over the single-index read that is encoded)", "user-space read-ahead buffers: the model assumes "
                        "every seek and every readline reaches the shared description, which is the worst case",
                        "spawn/forkserver start methods (the object would be pickled)",
@@ -44,11 +44,16 @@ def configs(tier):
         out.append({"kind": "mmap", "children": 2, "reads": 1, "nlines": 3, "pre": 1, "W": 5})
         out.append({"kind": "map", "children": 2, "reads": 1, "nlines": 3, "pre": 1, "W": 5})
         out.append({"kind": "map", "children": 1, "reads": 2, "nlines": 3, "W": 5})
+        out.append({"kind": "rla", "children": 2, "reads": 1, "nlines": 3, "mid": 1, "W": 5})
     else:
         for kind in ("rla", "mmap", "map"):
             out.append({"kind": kind, "children": 1, "reads": 3, "nlines": 3, "pre": 1, "W": 5})
             out.append({"kind": kind, "children": 2, "reads": 2, "nlines": 3, "pre": 1, "W": 5})
-            out.append({"kind": kind, "children": 3, "reads": 1, "nlines": 3, "pre": 1, "W": 5})
+            c3 = {"kind": kind, "children": 3, "reads": 1, "nlines": 3, "pre": 1, "W": 5}
+            if kind == "mmap":  # measured: without a context bound the assert query is still `unknown` after 1500 s (more steps per read)
+                c3["context_bound"] = 4
+            out.append(c3)
+            out.append({"kind": kind, "children": 2, "reads": 2, "nlines": 3, "mid": 1, "W": 5})
             out.append({"kind": kind, "children": 2, "reads": 3, "nlines": 3, "W": 5, "context_bound": 3})
             out.append({"kind": kind, "children": 3, "reads": 2, "nlines": 3, "W": 5, "context_bound": 3})
     return out
